@@ -15,6 +15,9 @@ Clauses(t) ==
 \cup (IF t.ref_hash = t.oth_hash /\ t.ref_rows = t.oth_rows THEN {} ELSE {<<"solver-input-depends-on-verbosity", "conic-data">>})
 \cup (IF t.ref_val = t.oth_val THEN {} ELSE {<<"result-depends-on-verbosity", "value">>})
 \cup (IF t.ref_out = t.oth_out THEN {} ELSE {<<"result-depends-on-verbosity", "outcome">>})
+\* the primal instance kept by the problem object (Gram matrix and function values, exact bits)
+\cup (IF t.inst = t.ref_inst THEN {} ELSE {<<"result-differs", "primal-instance">>})
+\cup (IF t.ref_inst = t.oth_inst THEN {} ELSE {<<"result-depends-on-verbosity", "primal-instance">>})
 TInit == tid \in 1..Len(Traces) /\ bad = Clauses(Traces[tid]) /\ reg = Zero /\ hist = <<>> /\ justReset = FALSE /\ model = 0
 TNext == UNCHANGED <<tid, bad, reg, hist, justReset, model>>
 Report == PrintT(ToJson(<<"V", tid, bad>>))
